@@ -79,6 +79,12 @@ class Ctx:
         gone from it.  That is reported as a violation naming the function and what is missing, and the rest of the pack
         - which would pass vacuously or trip over the hole - is not analysed (ANALYSIS-INCOMPLETE, exit 1)."""
         self.analysed[f"{rule}:{what}"] = count
+        if "configuration" in what:
+            # the number of static configurations of a function is not an obligation: a python-level test more or less
+            # changes it without changing the circuit.  Only "nothing was analysed" stops the pack (exit 2, no violation).
+            if count < 1:
+                raise AnalysisError(rule, site or self.prop, f"no {what} found (anchor vanished)")
+            return
         if count < minimum:
             self.bad(f"{rule}.present", site or self.prop, what, found=f"{count} found", required=f"at least {minimum}: the construct that realises the obligation is present")
             raise AnalysisError(rule, site or self.prop, f"only {count} {what} found, floor is {minimum} (anchor vanished)")
